@@ -283,7 +283,28 @@ func runHistory(c *Ctx, caseIdx int, rng *rand.Rand, o *HistOpts) *HistRun {
 				c.Count("mempool-checks", 1)
 			}
 		}
-		res, err := execBlock(r, g.G.ChainID, b, hr.AppHash)
+		var mid func(k int) error
+		if o.Mempool > 0 && rng.Intn(3) == 0 {
+			// mempool checks also arrive while a block is being executed: transactions that follow the delivered ones
+			// (same senders, next nonces), i.e. the rest of this block, checked again at a PRNG-chosen point
+			at := 0
+			if len(b.Txs) > 0 {
+				at = rng.Intn(len(b.Txs) + 1)
+			}
+			mid = func(k int) error {
+				if k != at {
+					return nil
+				}
+				for _, tx := range b.Txs[k:] {
+					if _, err := r.CheckTx(tx); err != nil {
+						return err
+					}
+					c.Count("mempool-checks-mid-block", 1)
+				}
+				return nil
+			}
+		}
+		res, err := execBlockMid(r, g.G.ChainID, b, hr.AppHash, mid)
 		if err != nil {
 			if de, ok := err.(*ErrDead); ok {
 				hr.Died = de
